@@ -35,9 +35,12 @@ RULE = ("2-4 real threads, each with its own ThreadsafeForwardingResult over one
         "outcomes, guarded startTestRun/stopTestRun/stop/done/shouldStop; some malformed scripts); per-thread fault "
         "plans (each single target call raising; random pairs/triples; Exception- and BaseException-derived); "
         "schedules: every schedule with <= 2 preemptions for fixed 2-thread (quick) and 3-thread (thorough) "
-        "programs, seeded random otherwise; non-trivial = >= 2 threads with >= 1 reported test each; distinct = distinct JSON")
+        "programs and for a reporter next to a controller making only guarded calls (stop/shouldStop/stopTestRun/done "
+        "attempted while the reporter is inside a block), seeded random otherwise; non-trivial = >= 2 threads with >= 1 reported test each; distinct = distinct JSON")
 TRUSTED = ["harness/vcheck/sched.py: deterministic scheduler for real threads (yield points at semaphore.acquire/"
-           "release and at every target method); preemption between yield points is not explored (PARTIAL)",
+           "release and at every target method; the semaphore double implements threading.Semaphore.acquire fully: a "
+           "non-blocking acquire or one with a timeout is always enabled and fails when the counter is 0, so code that "
+           "stops waiting for the semaphore runs its real path); preemption between yield points is not explored (PARTIAL)",
            "the shared target double implements the full extended TestResult API so that ExtendedToOriginalDecorator "
            "forwards each call 1:1; failfast is off"]
 ASSUMPTIONS = ["one forwarder per thread (forwarder state is thread-confined)",
@@ -420,6 +423,10 @@ FIXED_2x2 = [
     mk_test(1, 0, 1, 2) + mk_test(2, 1, 3, 4, in_tags=[([1], [])]),
     [["tags", [7], []]] + mk_test(11, 2, 11, 12, in_tags=[([2], [7])], post_tags=[([9], [])]) + mk_test(12, 3, 13, 14),
 ]
+# a reporting thread next to a controller that only makes guarded calls (stop, shouldStop, stopTestRun, done):
+# under every <= 2-preemption schedule some of them are attempted while the reporter is inside a block
+FIXED_CTRL = [mk_test(1, 0, 1, 2) + mk_test(2, 4, 3, 4, in_tags=[([1], [])]),
+              [["guard", 2], ["guard", 4], ["guard", 1], ["guard", 3]]]
 FIXED_3x2 = FIXED_2x2 + [[["guard", 0]] + mk_test(21, 4, 21, 22) + mk_test(22, 5, None, 23) + [["guard", 1]]]
 
 
@@ -443,6 +450,9 @@ def generate(rng, tier):
         keep = 30000
         for s in (scheds if len(scheds) <= keep else rng.sample(scheds, keep)):
             cases.append(mk_case(scripts, {}, s))
+    ctrl_scheds = segment_schedules([n_sync(x)[0] for x in FIXED_CTRL], 2)
+    for sc in ctrl_scheds:
+        cases.append(mk_case(FIXED_CTRL, {}, sc))
     # each single target call raising, under a sample of those schedules
     per_fault = 25 if quick else 120
     for (t, k) in single_faults(scripts):
